@@ -21,7 +21,7 @@ ASSUMPTIONS = [
 EXHAUSTIVE_WHEN_PARTS = True
 
 FORMS = ["numeric", "backward_label", "forward_label"]
-RELOCS = ["none", "reloc_rom", "reloc_rom_near", "reloc_ram", "org_ram", "reloc_ram_near_storage"]
+RELOCS = ["none", "reloc_rom", "reloc_rom_near", "reloc_ram", "org_ram", "reloc_ram_near_storage", "resume_after_reloc", "resume_after_reloc_gap"]
 
 
 def placements(rom: str) -> list[int]:
@@ -82,6 +82,14 @@ def build(rom: str, m: str, d: int, place: int, form: str, reloc: str):
     elif reloc == "reloc_rom_near":
         run = (place & 0xFF0000) | (((place & 0xFFFF) + 0x40) if (place & 0xFFFF) < 0xF000 else ((place & 0xFFFF) - 0x60))
         head += f"@={run:#08x}\n"
+    elif reloc in ("resume_after_reloc", "resume_after_reloc_gap"):
+        # a relocated section, then *= back to where the stored bytes end (or one byte further): the branch runs at its *= address
+        gap = 0 if reloc == "resume_after_reloc" else 1
+        away = reloc_target(rom) if d % 2 else (place & 0xFF0000) | (((place & 0xFFFF) + 0x21) & 0xFFFF | (0x8000 if rom != "high" else 0))
+        run = adv(rom, place, 2 + gap)
+        if run is None:
+            return None
+        head += f"@={away:#08x}\n.db 0xEA, 0xEA\n*={run:#08x}\n"
     elif reloc == "reloc_ram":
         run = 0x7E2000
         head += f"@={run:#08x}\n"
@@ -156,7 +164,7 @@ def judge(res: Res, rom: str, m: str, d: int, place: int, form: str, reloc: str)
         if not r.ok:
             res.violate("valid-branch-rejected", f"{rom}: `{m}` at {run:#x} to {target:#x} (displacement {true_d}) rejected: {r.err_kind}: {r.err_text[:160]}", wit)
             return
-        got = b"".join(x for _, x in r.blocks)
+        got = r.blocks[-1][1] if r.blocks else b""     # the block opened by the last *= holds the branch
         # the branch is the last instruction before trailing filler in the forward form
         pos = 0 if form == "forward_label" or form == "numeric" else len(got) - 2
         if got[pos:pos + 2] != exp:
